@@ -121,7 +121,7 @@ def one(rec, hub, seed, tier, i, tmpdir):
     ex = importlib.import_module("flodym.export")
     helper = importlib.import_module("flodym.export.helper")
     rng = case_nprng(seed, "c19.system", 0, i)
-    d = SY.gen_def(rng, hostile_names=True, max_flows=8, vary_items=True)
+    d = SY.gen_def(rng, hostile_names=True, max_flows=8, vary_items=True, big_system=0.03)
     for s_ in d.stocks:
         s_["name"] = s_["name"].replace("None", "nowhere")
     # names must stay distinct after sanitising (the statement's domain)
